@@ -98,6 +98,8 @@ def run(R):
                 tag = "backup.due-at-later-section" if (nsec > 1 and first_due > 0 and b"-b" not in opts) else None
                 R.oracle_fail("the backup does not hold the bytes the target had before the run" + (" (several sections: must be the state before the first)" if nsec > 1 else ""), data, tag=tag)
     R.dist["backup scenarios"] = dist
+    import ties
+    ties.t8(R, "T8-driver", [dict(tree=j["tree"], argv=j["argv"]) for j in jobs[:200 if quick else 3000]])
 
 
 RULE = ("a 12-line file patched by 1-3 sections for the same file (exact, offset, fuzzy, failing, already applied, creating, deleting) x all combinations of "
